@@ -213,6 +213,53 @@ def _exec_one(args):
         faulthandler.cancel_dump_traceback_later()
 
 
+def _trace_sample(args):
+    """reach probe: which source lines of the reader / socket wrapper does a
+    sample of runs execute?  (runs in a forked worker, under sys.settrace)"""
+    prop, master, tier, n = args
+    mod = _WORKER.get("mod") or load_prop(prop)
+    files = ("rtcmreader.py", "socketwrapper.py")
+    base = os.path.join(os.path.realpath(os.path.join(REPO, "src", "pyrtcm")), "")
+    hit = set()
+
+    def local(frame, event, arg):
+        if event == "line":
+            hit.add((frame.f_code.co_filename, frame.f_lineno))
+        return local
+
+    def glob(frame, event, arg):
+        fn = frame.f_code.co_filename
+        if fn.startswith(base) and fn.endswith(files):
+            return local
+        return None
+
+    sys.settrace(glob)
+    try:
+        for index in range(n):
+            mod.execute(mod.generate(master, index, tier))
+    finally:
+        sys.settrace(None)
+    out = {}
+    for f in files:
+        path = os.path.join(base, f)
+        with open(path, "rb") as fh:
+            code = compile(fh.read(), path, "exec")
+        lines = set()
+        stack = [code]
+        while stack:
+            c = stack.pop()
+            first = c.co_firstlineno
+            for _s, _e, ln in c.co_lines():
+                if ln is not None and (c.co_flags & 0x1) and ln != first:  # CO_OPTIMIZED: function bodies only
+                    lines.add(ln)
+            for k in c.co_consts:
+                if hasattr(k, "co_lines"):
+                    stack.append(k)
+        got = {ln for (fn, ln) in hit if fn == path}
+        out[f] = {"executable_lines_in_functions": len(lines), "reached": len(lines & got), "not_reached": sorted(lines - got)}
+    return out
+
+
 # ---------------------------------------------------------------------------
 # minimisation (delta debugging, class preserving)
 # ---------------------------------------------------------------------------
@@ -349,6 +396,15 @@ def run_check(prop, tier, master, workers, runs_override=None, write=True):
                 raise
             raise HarnessError(f"worker failure: {type(e).__name__}: {e}") from e
 
+    lines_reached = None
+    nsample = getattr(mod, "TRACE_SAMPLE", 300)
+    if nsample:
+        with ProcessPoolExecutor(max_workers=1, mp_context=ctx, initializer=_worker_init, initargs=(prop, watchdog)) as pool:
+            try:
+                lines_reached = pool.submit(_trace_sample, (prop, master, tier, min(nsample, nruns))).result(timeout=600)
+            except Exception as e:
+                raise HarnessError(f"trace sample failed: {type(e).__name__}: {e}") from e
+
     # aggregate in run order -> independent of worker count
     counters = {}
     sets = {}
@@ -411,6 +467,8 @@ def run_check(prop, tier, master, workers, runs_override=None, write=True):
     for k, v in sets.items():
         if len(v) <= 80:
             coverage.setdefault("reach_set_members", {})[k] = sorted(v)
+    if lines_reached is not None:
+        coverage["lines_reached_in_traced_sample"] = lines_reached
     coverage.update(extra)
     ev = {
         "property_id": prop,
